@@ -35,6 +35,8 @@ func schedScenarios(prop, tier string) []*Scenario {
 		return c19Scenarios(tier)
 	case "C17":
 		return c17Scenarios(tier)
+	case "C12":
+		return c12Scenarios(tier)
 	}
 	return nil
 }
